@@ -238,6 +238,26 @@ def roundtrip_case(run, seed, idx, mods):
                 V("from_data_cut:order-or-count", "from_data_cut: nnz %d vs %d selected or unsorted" % (fc.nnz, int(sel.sum())))
             elif not np.array_equal(fc.to_dense("intensity"), np.where(sel, data, 0).astype(data.dtype)):
                 V("from_data_cut:roundtrip", "to_dense(from_data_cut(img, cut)) != selected pixels")
+        if dt == np.uint16:
+            # a cut that is not a whole number (a threshold computed as mean + 3 sigma): pixel > cut decides, so pixels
+            # equal to ceil(cut) are selected
+            cutf = float(max(int(cut), 0)) + float(r2.choice([0.25, 0.5, 0.6, 0.75, 0.9]))
+            if r2.random() < 0.5:
+                # put the cut just under a value that is present
+                present = np.unique(data[detmask]) if detmask.any() else np.array([1])
+                cutf = float(present[int(r2.integers(len(present)))]) - float(r2.choice([0.1, 0.4, 0.5]))
+            self_ = (data.astype(np.float64) > cutf) & detmask
+            if self_.any() and cutf > 0:
+                try:
+                    ff = sparseframe.from_data_cut(data, cutf, detectormask=detarg)
+                except Exception as e:
+                    V("from_data_cut:fractional-cut", "from_data_cut(uint16 image, cut=%r) raised %s: %s" % (cutf, type(e).__name__, e))
+                else:
+                    run.count("cut_fractional_on_uint16")
+                    if ff.nnz != int(self_.sum()) or not np.array_equal(ff.to_dense("intensity"),
+                                                                       np.where(self_, data, 0).astype(data.dtype)):
+                        V("from_data_cut:fractional-cut", "from_data_cut(uint16 image, cut=%r) keeps %d pixels, %d are above the cut"
+                          % (cutf, ff.nnz, int(self_.sum())))
         if dt == np.uint16 and detmask.any() and pending("VERIF_PENDING_C14_NEGCUT"):
             # every uint16 pixel is above a negative cut
             negcut = -int(r2.integers(1, 70000))
